@@ -139,6 +139,7 @@ type Exec struct {
 	AllowPanic  bool
 	NoMerge     bool
 	NoLazy      bool
+	NoEdwards   bool // execute filippo.io/edwards25519 from source instead of the algebraic model
 	BigMode     string // "bv" (default) or "int"
 	BigWidth    int
 	invCount    int
@@ -843,6 +844,18 @@ func (ex *Exec) step(s *State) ([]*State, *stopPoint) {
 		fmt.Printf("[%d] %s: %s\n", s.ID, fr.Fn.Name(), in)
 	}
 	succ, join, err := ex.execGuarded(s, fr, in)
+	if err != nil && s.Lenient && len(s.Stack) > 1 {
+		// package initialisers: a failure inside a callee poisons the result of the outermost call
+		s.Stack = s.Stack[:1]
+		top := s.Stack[0]
+		if top.Block != nil && top.IP < len(top.Block.Instrs) {
+			if v, ok := top.Block.Instrs[top.IP].(ssa.Value); ok {
+				top.Locals[v] = Poison{err.Error()}
+			}
+			top.IP++
+			return nil, nil
+		}
+	}
 	if err != nil {
 		if _, isU := err.(*execError); isU && s.Lenient && s.top() == fr {
 			// package initialisers: an instruction we cannot execute yields a poisoned value
